@@ -109,6 +109,14 @@ class CallGraph:
         if not isinstance(fe, dict):
             return None
         k = fe.get("k")
+        if k == "Mem" and fe.get("f") == "error_handler":
+            # T_ERROR_HANDLER slots live on the value stack only (LPC code cannot create them, containers never hold
+            # them): the dispatch in free_svalue() fires when such a slot is released, i.e. in the function that
+            # pushed it (it has its own edge to the handler through the address-of store) or when an error unwinds
+            # the stack (restore_context(), which gets the edges in _build).  Resolving it at every caller of
+            # free_svalue() would make every release of any value "run" destruct_object().
+            self.stack_handlers = set(self.field_targets.get("error_handler") or ())
+            return set()
         if k == "Mem":
             t = self.field_targets.get(fe["f"])
             if t:
@@ -147,6 +155,19 @@ class CallGraph:
     def _build(self):
         self._collect_stores()
         self._propagate_params()
+        # error unwinding runs the handlers parked on the value stack; so does the function that parks one
+        hs = set(self.field_targets.get("error_handler") or ())
+        if hs:
+            self.edges.setdefault("restore_context", set()).update(hs)
+            for name, fl in self.funcs.items():
+                for f in fl:
+                    for b, i, n in f.nodes():
+                        if n.get("k") == "Asg" and n.get("op") == "=" and strip(n["L"]).get("k") == "Mem" and strip(n["L"]).get("f") == "error_handler":
+                            r = strip(n["R"])
+                            if r.get("k") == "Un" and r.get("op") == "&":
+                                r = strip(r["e"])
+                            if r.get("k") == "Ref" and r.get("d") == "func":
+                                self.edges.setdefault(name, set()).add(r["n"])
         for name, fl in self.funcs.items():
             es = self.edges.setdefault(name, set())
             for f in fl:
